@@ -12,6 +12,49 @@ def cplx(x):
     return x
 
 
+def rep_scalar(x, k, kind='float'):
+    """The same number in another legal representation (Python number, numpy scalar, 0-d array)."""
+    if k is None:
+        return x
+    k = int(k) % 4
+    if kind == 'int':
+        return [int(x), np.int64(x), np.int32(x), int(x)][k]
+    if kind == 'complex':
+        z = complex(x)
+        if z.imag == 0 and k == 3:
+            return float(z.real)                  # a real step handed over as a real number
+        return [z, np.complex128(z), np.array(z), z][k]
+    return [float(x), np.float64(x), np.array(float(x)), float(x)][k]
+
+
+def rep_labels(qd, qD, k):
+    """Physical and bond quantum numbers in another legal representation (lists, tuples, other integer dtypes)."""
+    qd = [int(x) for x in qd]
+    qD = [[int(x) for x in q] for q in qD]
+    if k is None:
+        return np.array(qd, dtype=int), qD
+    k = int(k) % 12
+    allq = qd + [x for q in qD for x in q] + [0]
+    lo, hi = min(allq), max(allq)
+    if k == 0:
+        return list(qd), [tuple(q) for q in qD]
+    if k == 1 and -2 ** 20 < lo and hi < 2 ** 20:
+        return np.array(qd, dtype=np.int32), [np.array(q, dtype=np.int32) for q in qD]
+    if k == 2:
+        return tuple(qd), [np.array(q, dtype=np.int64) for q in qD]
+    if k == 3:
+        return np.array(qd, dtype=np.int64), tuple(list(q) for q in qD)
+    if k == 4:
+        return np.array(qd, dtype=int)[::-1][::-1], [np.array(q + q, dtype=int)[:len(q)] for q in qD]    # views
+    # one narrow / unsigned integer type used uniformly (particle numbers are naturally unsigned); numpy arithmetic on
+    # such labels is consistent modulo 2^bits
+    for kk, dt, ok in ((5, np.uint8, 0 <= lo and hi < 100), (6, np.uint16, 0 <= lo and hi < 2 ** 14), (7, np.uint32, 0 <= lo and hi < 2 ** 30),
+                       (9, np.int8, -50 < lo and hi < 50), (10, np.int16, -2 ** 13 < lo and hi < 2 ** 13)):
+        if k == kk and ok:
+            return np.array(qd, dtype=dt), [np.array(q, dtype=dt) for q in qD]
+    return np.array(qd, dtype=int), qD
+
+
 def mol_coeffs(L, sub, structure):
     g = np.random.Generator(np.random.PCG64(sub))
     t = g.normal(size=(L, L))
@@ -52,11 +95,18 @@ class TNCtor(TNCore):
                 ref.A[i] = np.round(A.real * 4).astype(np.int64)
             elif entries == 'dyadic':
                 ref.A[i] = np.round(A * 16) / 16
+            elif entries == 'single':
+                ref.A[i] = A.astype(np.complex64)
+            elif entries == 'singlereal':
+                ref.A[i] = A.real.astype(np.float32)
+            elif entries == 'long':
+                ref.A[i] = A.astype(np.clongdouble)
 
     def op_new_mps(self, op):
         ptn = self.ptn
-        qd_arg = np.array(op.get('qd_override', self.qd), dtype=int)
-        qD = [list(q) for q in op['qD']]
+        qd_arg, qD = rep_labels(op.get('qd_override', self.qd), op['qD'], op.get('rep'))
+        if op.get('rep') is not None:
+            self.probe('labels_in_alternative_representation')
         if len(qD) != self.L + 1 or len(qD[0]) != 1 or len(qD[-1]) != 1:
             return 'skipped'
         fill = op.get('fill', 'rng')
@@ -83,15 +133,14 @@ class TNCtor(TNCore):
                     T[p_, a, b] = w[p_ % len(w)]
                 ref.A[i] = T
             self.probe('ghz_state')
-        o = self.finish_new('mps', ref, 'new:' + op.get('style', ''), op, extra_arrays=[qd_arg])
+        o = self.finish_new('mps', ref, 'new:' + op.get('style', ''), op, extra_arrays=[qd_arg] if isinstance(qd_arg, np.ndarray) else [])
         if not o.retired and float(np.linalg.norm(o.dense)) == 0.0:
             self.probe('zero_state')
         return 'ok'
 
     def op_new_mpo(self, op):
         ptn = self.ptn
-        qd_arg = np.array(self.qd, dtype=int)
-        qD = [list(q) for q in op['qD']]
+        qd_arg, qD = rep_labels(self.qd, op['qD'], op.get('rep'))
         if len(qD) != self.L + 1:
             return 'skipped'
         fill = op.get('fill', 'rng')
@@ -107,7 +156,7 @@ class TNCtor(TNCore):
             return st
         self.post_entries(ref, op.get('entries', 'complex') if fill != 'scalar' else 'asis')
         mag = op.get('magnitude', 'normal')
-        if mag != 'normal' and not any(np.issubdtype(a.dtype, np.integer) for a in ref.A):
+        if mag != 'normal' and not any(np.issubdtype(a.dtype, np.integer) or a.dtype.type in (np.float32, np.complex64) for a in ref.A):
             n = len(ref.A)
             if mag == 'unbalanced' and n >= 2:
                 ref.A[0] = ref.A[0] * 2.0 ** -60
@@ -119,7 +168,7 @@ class TNCtor(TNCore):
                 for j in range(n):
                     ref.A[j] = ref.A[j] * 2.0 ** 12
             self.probe('mpo_magnitude_' + mag)
-        self.finish_new('mpo', ref, 'new', op, extra_arrays=[qd_arg])
+        self.finish_new('mpo', ref, 'new', op, extra_arrays=[qd_arg] if isinstance(qd_arg, np.ndarray) else [])
         return 'ok'
 
     def op_identity(self, op):
@@ -294,7 +343,10 @@ class TNCtor(TNCore):
             v.flags.writeable = False
         vb = v.tobytes()
         owners = ('C03', 'C13') if tol == 0 else ('C13',)
-        st, ref = self.guarded(op, lambda: ptn.MPS.from_vector(d, L, v, tol=tol), operands=(src,), owners=owners)
+        tol_a = rep_scalar(tol, op.get('rep'))
+        st, ref = self.guarded(op, lambda: ptn.MPS.from_vector(d, L, v, tol=tol_a), operands=(src,), owners=owners)
+        if isinstance(tol_a, np.ndarray):
+            self.check(float(tol_a) == float(tol), ['C19', 'C13'], 'tolerance_argument_modified', lambda: f'the 0-d array passed as tolerance changed from {tol!r} to {float(tol_a)!r}')
         self.check(v.tobytes() == vb, 'C19', 'argument_vector_modified', 'from_vector changed its input vector')
         if st != 'ok':
             return st
@@ -322,6 +374,7 @@ class TNCtor(TNCore):
         new = cls(np.array(src.ref.qd), [np.array(q) for q in src.ref.qD], fill='postpone')
         new.A = list(src.ref.A)
         o = self.add_obj(src.kind, new, src.tag + '+shared')
+        o.prec = max(o.prec, src.prec)
         self.probe('object_sharing_tensor_arrays')
         return 'ok'
 
@@ -333,6 +386,7 @@ class TNCtor(TNCore):
         if st != 'ok':
             return st
         o = self.add_obj(src.kind, ref, src.tag)
+        o.prec = max(o.prec, src.prec)
         o.traj = None
         self.scribble(o)
         return 'ok'
